@@ -2,7 +2,7 @@
    1 / (number of such orders).  Statements only; proofs live in Proofs/Perm*.v. *)
 From PV Require Import Model.Perm Proofs.PermProofs Proofs.PermSound Proofs.PermComplete Proofs.PermNoDup Proofs.PermDensity.
 From Coq Require Import Permutation.
-From PV Require Import Model.Grammar Proofs.GrammarTable Proofs.GrammarPG Proofs.GrammarForests.
+From PV Require Import Model.Grammar Proofs.GrammarTable Proofs.GrammarPG Proofs.GrammarForests Proofs.GrammarPerm.
 
 (* the sampler's law is the uniform law on the enumerated list of orders, for every tree / forest *)
 Theorem C09_sampler_uniform_on_orders : forall (F : forest) (f : list nat -> Qc),
@@ -65,6 +65,26 @@ Theorem C09_assembly_order_density_sums_to_one : forall (n : nat) (on : bool) (t
 Proof. exact g_cden_sum. Qed.
 Print Assumptions C09_assembly_order_density_sums_to_one.
 
+(* the two models of compatibility agree: the orders enumerated above for a rose-tree forest F are exactly the
+   permutations of its points that are compatible, in the grammar's sense, with the relation [frel F] the forest induces
+   on the data points ... *)
+Theorem C09_enumerated_orders_are_the_compatible_ones : forall (F : forest) (o : list nat),
+  NoDup (fpoints F) -> (In o (forders F) <-> Permutation (fpoints F) o /\ compat (rev o) (frel F)).
+Proof. exact forders_iff_compat. Qed.
+Print Assumptions C09_enumerated_orders_are_the_compatible_ones.
+
+(* ... hence the order density of the assembled particle-Gibbs theorem IS the density 1 / fcount F proved above *)
+Theorem C09_assembly_density_is_order_density : forall (n : nat) (F : forest),
+  Permutation (seq 0 n) (fpoints F) -> forall sg : list nat,
+  In sg (gorders n) -> gcden n sg (tab n (frel F)) = order_density F sg.
+Proof. exact gcden_is_order_density. Qed.
+Print Assumptions C09_assembly_density_is_order_density.
+
+Theorem C09_assembly_count_is_count : forall (n : nat) (F : forest),
+  Permutation (seq 0 n) (fpoints F) -> qn (gcount n (tab n (frel F))) = fcount F.
+Proof. exact gcount_is_fcount. Qed.
+Print Assumptions C09_assembly_count_is_count.
+
 (* the pinned commit's count is right exactly when there are at most one outlier *)
 Theorem C09_pinned_count_ok_iff : forall F,
   fcount_pinned F = qn (length (forders F)) <-> (length (outl F) <= 1)%nat.
@@ -76,6 +96,13 @@ Example C09_pinned_count_refuted :
   let F := mkF [Node [0] []] [1; 2] in fcount_pinned F = qn 3 /\ length (forders F) = 6.
 Proof. split; vm_compute; reflexivity. Qed.
 Print Assumptions C09_pinned_count_refuted.
+
+(* non-vacuity of the link: clone {2} above {0} and {1}, outlier 3: 2 x 4 = 8 orders in both models *)
+Example C09_assembly_link_example :
+  let F := mkF [Node [2] [Node [0] []; Node [1] []]] [3] in
+  gcount 4 (tab 4 (frel F)) = 8 /\ length (forders F) = 8 /\ frel F 2 0 = true /\ frel F 0 2 = false /\ frel F 3 3 = false.
+Proof. repeat split; vm_compute; reflexivity. Qed.
+Print Assumptions C09_assembly_link_example.
 
 (* non-vacuity: a three-level tree with outliers has a non-trivial order set *)
 Example C09_nontrivial :
